@@ -73,3 +73,44 @@ Lemma test_after_differs_iterative t : ~ t == lda_default_tol -> ~ linsolve_wrap
 Proof. unfold wrapper_tol_test_after, lda_default_tol. cbn [linsolve_wrapper_tol]. intros H E. apply H. lra. Qed.
 Lemma test_after_differs_direct : ~ linsolve_wrapper_tol None == wrapper_tol_test_after None.
 Proof. intros E. vm_compute in E. discriminate. Qed.
+
+(* ---- the storage test of a freshly solved column refers to the column's OWN norm ---- *)
+Lemma stored_true tol bnrm bnrm0 : stored tol bnrm bnrm0 = true <-> tol * bnrm0 < bnrm.
+Proof.
+  unfold stored. rewrite negb_true_iff. split.
+  - intros H. apply Qnot_le_lt. intros Hle. apply Qle_bool_iff in Hle. congruence.
+  - intros H. destruct (Qle_bool bnrm (tol * bnrm0)) eqn:E; [|reflexivity].
+    apply Qle_bool_iff in E. exfalso. apply (Qlt_not_le _ _ H E).
+Qed.
+
+Lemma stored_false tol bnrm bnrm0 : stored tol bnrm bnrm0 = false <-> bnrm <= tol * bnrm0.
+Proof. unfold stored. rewrite negb_false_iff. apply Qle_bool_iff. Qed.
+
+(* the decision does not depend on the magnitude (the units) of the column: scaling the column scales both norms *)
+Lemma stored_scale tol s bnrm bnrm0 : 0 < s -> stored tol (s * bnrm) (s * bnrm0) = stored tol bnrm bnrm0.
+Proof.
+  intros Hs. destruct (stored tol bnrm bnrm0) eqn:E.
+  - apply stored_true in E. apply stored_true. nra.
+  - apply stored_false in E. apply stored_false. nra.
+Qed.
+
+(* a column from which the orthogonalisation removes nothing (empty database, or orthogonal to everything stored) is
+   stored whatever its magnitude *)
+Lemma stored_nothing_removed tol bnrm0 : tol < 1 -> 0 < bnrm0 -> stored tol bnrm0 bnrm0 = true.
+Proof. intros Ht Hb. apply stored_true. nra. Qed.
+
+(* more generally: if a fraction c > tol of the column survives the orthogonalisation it is stored *)
+Lemma stored_fraction tol c bnrm0 : tol < c -> 0 < bnrm0 -> stored tol (c * bnrm0) bnrm0 = true.
+Proof. intros Ht Hb. apply stored_true. nra. Qed.
+
+(* any reference that is 1/tol times larger than what survives drops the column: with a norm of the whole block as
+   reference, a column 1/tol times smaller than the largest one of its block would never be stored *)
+Lemma stored_large_reference tol bnrm ref : bnrm <= tol * ref -> stored tol bnrm ref = false.
+Proof. apply stored_false. Qed.
+
+Lemma stored_reference_matters :
+  exists tol bnrm bnrm0 ref, 0 < tol /\ tol < 1 /\ 0 < bnrm0 /\ bnrm0 <= ref /\
+    stored tol bnrm bnrm0 = true /\ stored tol bnrm ref = false.
+Proof.
+  exists (1 # 10000000), 1, 1, 1000000000. repeat split; try reflexivity; try (unfold Qlt, Qle; cbn; lia).
+Qed.
